@@ -49,7 +49,7 @@ def fa_desc(draw, cls=None, max_states=5, max_trans=12, state_pools=None, sym_po
     c = cls or draw(st.sampled_from(list(classes)))
     pool_name = draw(st.sampled_from(state_pools or list(STATE_POOLS)))
     pool = STATE_POOLS[pool_name]
-    n = draw(st.integers(1, min(max_states, len(pool))))
+    n = min(draw(st.sampled_from([3, 4, 2, 5, 3, 4, 2, 5, 1])), max_states, len(pool))
     # a random subset of the pool, not a prefix: name collisions need specific members
     names = draw(st.lists(st.sampled_from(pool), min_size=n, max_size=n, unique_by=repr))
     if force_syms is not None:
@@ -61,38 +61,33 @@ def fa_desc(draw, cls=None, max_states=5, max_trans=12, state_pools=None, sym_po
         k = nsyms or draw(st.integers(1, len(sp)))
         syms = sp[:k]
     labels = list(syms)
-    has_eps = c == "enfa" and draw(st.booleans()) if eps_weight else False
-    trans = []
-    m = draw(st.integers(0, max_trans))
-    seen = set()
-    detkeys = set()
-    for _ in range(m):
-        p = draw(st.sampled_from(names))
-        if has_eps and draw(st.integers(0, 9)) < 10 * eps_weight:
-            a = None
-        else:
-            a = draw(st.sampled_from(labels))
-        q = draw(st.sampled_from(names))
-        key = (repr(p), repr(a), repr(q))
-        if key in seen:
-            continue
-        if c == "dfa":
-            if (key[0], key[1]) in detkeys:
-                continue
-            detkeys.add((key[0], key[1]))
-        seen.add(key)
-        trans.append((p, a, q))
+    has_eps = (c == "enfa" and draw(st.integers(0, 3)) < 3) if eps_weight else False
+    lab = st.sampled_from(labels)
+    if has_eps:
+        k_eps = max(1, int(round(10 * eps_weight)))
+        lab = st.sampled_from(labels * (10 - k_eps) + [None] * k_eps * len(labels))
+    nlab = len(labels) + (1 if has_eps else 0)
+    possible = n * len(labels) if c == "dfa" else n * n * nlab
+    m = draw(st.sampled_from([2 * n, 2 * n + 2, 3 * n, n + 1, 2 * n + 1, n, max_trans, 1, 0]))
+    m = min(m, max_trans, max(0, possible - (possible // 4)))
+    raw = draw(st.lists(st.tuples(st.sampled_from(names), lab, st.sampled_from(names)),
+                        min_size=m, max_size=m,
+                        unique_by=(lambda t: (repr(t[0]), repr(t[1])) if c == "dfa" else repr(t))))
+    trans = list(raw)
+    def pick(k):
+        k = min(k, len(names))
+        if k == 0:
+            return []
+        return draw(st.lists(st.sampled_from(names), min_size=k, max_size=k, unique_by=repr))
     if c == "dfa":
-        starts = draw(st.lists(st.sampled_from(names), max_size=1))
+        starts = pick(draw(st.sampled_from([1, 1, 1, 1, 1, 1, 0])))
     else:
-        starts = draw(st.lists(st.sampled_from(names), max_size=max_starts, unique_by=repr))
-        if not starts and draw(st.integers(0, 3)) > 0:
-            starts = [names[0]]
-    finals = draw(st.lists(st.sampled_from(names), max_size=3, unique_by=repr))
+        starts = pick(min(max_starts, draw(st.sampled_from([1, 1, 1, 1, 1, 2, 2, 3, 0]))))
+    finals = pick(draw(st.sampled_from([1, 1, 1, 1, 2, 2, 3, 0])))
     d = {"cls": c, "pool": pool_name, "sympool": sym_pool_name,
          "trans": [[enc(p), enc(a), enc(q)] for p, a, q in trans],
          "starts": [enc(s) for s in starts], "finals": [enc(s) for s in finals]}
-    d["how"] = draw(st.sampled_from(["mut", "mut", "ctor"]))
+    d["how"] = draw(st.sampled_from(["mut", "ctor", "mut"]))
     d["order"] = draw(st.sampled_from(["tsf", "sft", "fts", "stf"]))
     if allow_extra and draw(st.integers(0, 4)) == 0:
         used = {repr(x) for t in trans for x in (t[0], t[2])} | {repr(s) for s in starts + finals}
@@ -124,3 +119,110 @@ def alphabet_of(d):
 
 
 FOREIGN = "zz"   # a symbol never used by any pool
+
+
+# ---------------------------------------------------------------- derived descriptions (C02)
+def _used_states(d):
+    from .common import dec
+    out = []
+    for p, _a, q in d["trans"]:
+        for x in (p, q):
+            if x not in out:
+                out.append(x)
+    for x in d["starts"] + d["finals"] + d.get("states", []):
+        if x not in out:
+            out.append(x)
+    return out
+
+
+def derive_preserving(draw, d):
+    """a description with the same language as d but another structure"""
+    kind = draw(st.sampled_from(["unreachable", "sink", "rename", "determinise", "dup_final_free"]))
+    e = {k: (list(v) if isinstance(v, list) else v) for k, v in d.items()}
+    e["trans"] = [list(t) for t in d["trans"]]
+    syms = []
+    for _p, a, _q in d["trans"]:
+        if a is not None and a not in syms:
+            syms.append(a)
+    states = _used_states(d) or [0]
+    if kind == "unreachable":
+        new = "u9"
+        for s in syms[:2]:
+            e["trans"].append([new, s, draw(st.sampled_from(states + [new]))])
+        if draw(st.booleans()):
+            e["finals"] = e["finals"] + [new]
+        if not syms:
+            e["states"] = e.get("states", []) + [new]
+        e["derived"] = "unreachable"
+    elif kind == "sink":
+        sink = "sink9"
+        have = {(repr(p), repr(a)) for p, a, _q in d["trans"]}
+        for s in states:
+            for a in syms:
+                if (repr(s), repr(a)) not in have:
+                    e["trans"].append([s, a, sink])
+        for a in syms:
+            e["trans"].append([sink, a, sink])
+        e["derived"] = "sink"
+    elif kind == "rename":
+        def ren(s):
+            return {"t": ["r", s]}
+        e["trans"] = [[ren(p), a, ren(q)] for p, a, q in d["trans"]]
+        e["starts"] = [ren(s) for s in d["starts"]]
+        e["finals"] = [ren(s) for s in d["finals"]]
+        if "states" in d:
+            e["states"] = [ren(s) for s in d["states"]]
+        e["derived"] = "rename"
+    elif kind == "determinise":
+        from . import ref_fa
+        R = ref_fa.from_desc(d)
+        D = R.determinise()
+        e = {"cls": "dfa", "how": "mut", "order": "tsf",
+             "trans": [[enc(p), enc(a), enc(q)] for p, a, q in D.trans],
+             "starts": [enc(s) for s in D.starts], "finals": [enc(s) for s in D.finals],
+             "derived": "determinise"}
+    else:
+        # a second copy of every non-start state reached by the same edges (splits states)
+        def cp(s):
+            return {"t": ["c", s]}
+        extra = []
+        for p, a, q in d["trans"]:
+            extra.append([p, a, cp(q)])
+            extra.append([cp(p), a, q])
+        if d["cls"] == "dfa":
+            e["cls"] = "nfa"
+        e["trans"] = e["trans"] + extra
+        e["finals"] = e["finals"] + [cp(s) for s in d["finals"]]
+        e["derived"] = "split"
+    return e
+
+
+def derive_changing(draw, d):
+    """a minimal edit that usually changes the language (the oracle decides)"""
+    e = {k: (list(v) if isinstance(v, list) else v) for k, v in d.items()}
+    e["trans"] = [list(t) for t in d["trans"]]
+    states = _used_states(d) or [0]
+    kind = draw(st.sampled_from(["flip_final", "redirect", "drop_edge", "add_edge"]))
+    if kind == "flip_final" or not e["trans"]:
+        s = draw(st.sampled_from(states))
+        if s in e["finals"]:
+            e["finals"] = [x for x in e["finals"] if x != s]
+        else:
+            e["finals"] = e["finals"] + [s]
+    elif kind == "redirect":
+        i = draw(st.integers(0, len(e["trans"]) - 1))
+        p, a, _q = e["trans"][i]
+        q2 = draw(st.sampled_from(states))
+        if [p, a, q2] not in e["trans"]:
+            e["trans"][i] = [p, a, q2]
+    elif kind == "drop_edge":
+        i = draw(st.integers(0, len(e["trans"]) - 1))
+        del e["trans"][i]
+    else:
+        syms = [a for _p, a, _q in d["trans"] if a is not None] or ["a"]
+        t = [draw(st.sampled_from(states)), draw(st.sampled_from(syms)), draw(st.sampled_from(states))]
+        if t not in e["trans"]:
+            if not (d["cls"] == "dfa" and any(x[0] == t[0] and x[1] == t[1] for x in e["trans"])):
+                e["trans"].append(t)
+    e["derived"] = "changed:" + kind
+    return e
